@@ -85,6 +85,25 @@ func TestC07NestedHistory(t *testing.T) {
 		ll = append(ll, &gtab.LookupTable{Meta: &gtab.LookupMetaInfo{LookupType: 4, LookupFlags: flags("ligFlags")},
 			Subtables: []gtab.Subtable{&gtab.Gsub4_1{Cov: lookups.CovTable([]glyph.ID{g("ligFirst")}), Repl: [][]gtab.Ligature{{{In: ligIn, Out: g("ligOut")}}}}}})
 
+		runNestedHistory(t, ll, gd, alpha, nCtx, wild, "nested")
+	})
+}
+
+// TestC07NestedCoherent is TestC07NestedHistory over the shared nested-list
+// generator (two marks in different mark glyph sets, flags using either set,
+// actions that prefer fitting lookups): state that a nested lookup leaves in
+// the Context - buffers, cached filters - is reused by a later match or a
+// later Apply call with other lookups.
+func TestC07NestedCoherent(t *testing.T) {
+	rapid.Check(t, func(t *rapid.T) {
+		wild := rapid.IntRange(0, 3).Draw(t, "wild") == 0
+		n := lookups.GenNested(t, lookups.NestedOptions{Wild: wild})
+		runNestedHistory(t, n.List, n.Gdef, n.Alphabet, n.NumCtx, wild, "nested-coherent")
+	})
+}
+
+func runNestedHistory(t *rapid.T, ll gtab.LookupList, gd *gdef.Table, alpha []glyph.ID, nCtx int, wild bool, sub string) {
+	{
 		c := &wcase{ll: ll, gd: gd, alpha: alpha}
 		if rapid.Bool().Draw(t, "onlyOuter") {
 			c.order = []gtab.LookupIndex{0}
@@ -134,7 +153,7 @@ func TestC07NestedHistory(t *testing.T) {
 		if wild {
 			mode = "wild"
 		}
-		stats.LabelN("nested", "applications", 781)
-		stats.CaseIn("nested", stats.Hash(c.dump), fired > 0, func() string { return c.dump }, "mode-"+mode, fmt.Sprintf("contexts-%d", nCtx))
-	})
+		stats.LabelN(sub, "applications", 781)
+		stats.CaseIn(sub, stats.Hash(c.dump), fired > 0, func() string { return c.dump }, "mode-"+mode, fmt.Sprintf("contexts-%d", nCtx))
+	}
 }
